@@ -412,7 +412,7 @@ CRITICAL = [
     ("UniformInt", TWO53 + 3, TWO53 + 3), ("UniformInt", 10 ** 17 + 1, 10 ** 17 + 7), ("UniformInt", -(TWO53 + 3), 0),
     ("UniformInt", 100, 105), ("UniformInt", 10 ** 9, 10 ** 9 + 5), ("UniformInt", 10 ** 15, 10 ** 15 + 5),
     ("UniformInt", 0, 2 ** 60), ("UniformInt", 1, TWO53 + 2), ("UniformInt", -2 ** 62, 2 ** 62), ("UniformInt", 0, 10 ** 400),
-    ("Poisson", 50), ("Poisson", 100), ("Poisson", 150), ("Poisson", 800),
+    ("Poisson", 50), ("Poisson", 100), ("Poisson", 150), ("Poisson", 800), ("Poisson", 2000),
     ("Geometric", F_(1, 10 ** 17)), ("Geometric", F_(0)),
     ("Uniform", F_(-10 ** 300), F_(10 ** 300)), ("Exponential", F_(1, 10 ** 300)), ("Gaussian", F_(0), F_(10 ** 300)),
 ]
@@ -668,7 +668,7 @@ def judge_op(op, r, used, rest, m, rep, rp, text, stats):
     iv = parse_impl_val(r.get("value"))
     vals = flat_values(iv)
     if (op[0] == "samplen") != (iv[0] == "arr") or len(vals) != want_n:
-        rep.violation(dict(kind="count", law=name), "C18 fails: %s delivers %d value(s) (%s), expected %d" % (text, len(vals), r.get("value", "")[:60], want_n), rp)
+        rep.violation(dict(kind="count"), "C18 fails: %s delivers %d value(s) (%s), expected %d" % (text, len(vals), r.get("value", "")[:60], want_n), rp)
         return "count-wrong"
     # support of every delivered value
     for v in vals:
@@ -786,7 +786,7 @@ def judge_direct(t, d, rep, direct):
             return
         direct["support_samples"] += d["count"] + min(50, t["n"])
         if d["count"] != t["n"]:
-            rep.violation(dict(kind="count", law=law[0]), "C18 fails: sample(%s, %d) delivered %d values" % (law_text(law), t["n"], d["count"]), rp)
+            rep.violation(dict(kind="count"), "C18 fails: sample(%s, %d) delivered %d values" % (law_text(law), t["n"], d["count"]), rp)
         if d["nbad"] or d["singles"]:
             rep.violation(dict(kind="uniformint-float-arithmetic") if law[0] == "UniformInt" else dict(kind="out-of-support", law=law[0]), "C18 fails: after seed(%d), sample(%s, %d) delivers %d value(s) outside the support, e.g. %s %s" % (
                 t["seed"], law_text(law), t["n"], d["nbad"], d["bad"], d["singles"]), rp)
@@ -796,7 +796,7 @@ def judge_direct(t, d, rep, direct):
             direct["count_checks"] += 2
             want = max(x["n"], 0)
             if x["size_value"] != "I:%d" % want or x["array_len"] != want:
-                rep.violation(dict(kind="count", law=law[0]), "C18 fails: size(sample(%s, %d)) = %r, array length %r, expected %d (%s %s)" % (
+                rep.violation(dict(kind="count"), "C18 fails: size(sample(%s, %d)) = %r, array length %r, expected %d (%s %s)" % (
                     law_text(law), x["n"], x["size_value"], x["array_len"], want, x.get("err"), x.get("escaped")), rp)
     elif kind == "rand":
         if d["failed"]:
